@@ -21,8 +21,8 @@ TMatch == /\ IsEvent("match")
           /\ LET i == Rec[l].instr  F == Range(Rec[l].frames)  qs == Range(Rec[l].uq)  res == Rec[l].res IN
              IF HasFrameSemantics(i)
              THEN /\ IsSome(res)
-                  /\ RuleOk(i, F, qs, Range(res.some.used), Range(res.some.blocked))
-                  /\ AgreesOn(i, F, qs)
+                  /\ RuleOk(i, F, qs, Range(res.some.used), Range(res.some.blocked)) = TRUE
+                  /\ AgreesOn(i, F, qs) = TRUE
              ELSE IsNone(res)
 TNext == TReset \/ TMatch
 TSpec == TInit /\ [][TNext]_l
